@@ -41,6 +41,7 @@ def oracle(ctx, ops, impl, max_index, min_left_min):
     served = {}        # (node, list) -> last served bit set
     seen_revoked = set()  # (node, list, idx) a verify on that node answered revoked
     hosted_valid = {}     # foreign url -> union of the bits of every valid revocation list ever hosted there in this scenario
+    hosted_now = {}       # foreign url -> what it serves now
     stats = Counter()
     bad = []
 
@@ -58,9 +59,12 @@ def oracle(ctx, ops, impl, max_index, min_left_min):
         if line.startswith("panic:") or " panic:" in line:
             report("C11:panic", f"operation {kind} panicked: {line[:200]}", i)
         if kind == "reset":
-            issued, revoked, served, seen_revoked, hosted_valid = {}, {}, {}, set(), {}
+            issued, revoked, served, seen_revoked, hosted_valid, hosted_now = {}, {}, {}, set(), {}, {}
         elif kind == "host":
             h = op["host"]
+            hosted_now[h["url"]] = h
+            if (h.get("len") or 0) > 16384:
+                stats["hosted-lists-larger-than-16kB"] += 1
             if h["kind"] in ("ok", "noexp"):
                 hosted_valid.setdefault(h["url"], set()).update(h.get("bits") or [])
         elif kind in ("entry", "race", "par", "mix"):
@@ -160,6 +164,11 @@ def oracle(ctx, ops, impl, max_index, min_left_min):
                     if lst["node"] >= 0:   # permanence is claimed for lists served by a node (a foreign host may serve anything)
                         seen_revoked.add(key)
                 else:
+                    hn = hosted_now.get(lst.get("raw", "")) if lst["node"] < 0 else None
+                    if (hn and hn["kind"] in ("ok", "noexp") and int(s["idx"]) in (hn.get("bits") or [])
+                            and ("raw:" + lst["raw"]) in line.split("dl=")[1]):
+                        report("C11:revoked-position-of-a-refreshed-list-not-honoured",
+                               f"{key}: the list was downloaded in this verification, it is valid and has the bit set (list of {hn.get('len') or 16384} bytes); answer {v}", i)
                     if key in seen_revoked:
                         report("C11:revocation-not-permanent", f"{key} was revoked for this node before, now {v}", i)
                     if lst["node"] == node and int(s["idx"]) in revoked.get((node, name), set()):
